@@ -80,10 +80,10 @@ func ndType(s string) node.RootType {
 
 // ndRun drives one real database along a behaviour.
 type ndRun struct {
-	backend string
-	ndb     dbapi.NodeDB
-	ctx     context.Context
-	roots   map[string]node.Root // root id -> real root
+	backend     string
+	ndb         dbapi.NodeDB
+	ctx         context.Context
+	roots       map[string]node.Root // root id -> real root
 	extraListed int
 }
 
@@ -320,12 +320,12 @@ func ndAccepts(b *ndBehaviour, backend string) bool {
 }
 
 type ndMismatch struct {
-	SharedKV bool    `json:"shares_kv_with_other_root"`
-	Backend string   `json:"backend"`
-	Step    int      `json:"step"`
-	Fail    *ndFail  `json:"fail"`
-	Steps   []ndStep `json:"steps"`
-	Shape   string   `json:"shape"`
+	SharedKV bool     `json:"shares_kv_with_other_root"`
+	Backend  string   `json:"backend"`
+	Step     int      `json:"step"`
+	Fail     *ndFail  `json:"fail"`
+	Steps    []ndStep `json:"steps"`
+	Shape    string   `json:"shape"`
 }
 
 // ndShape names the history shape of a failure (used to match known findings narrowly).
